@@ -42,7 +42,7 @@ RUN_TIMEOUT = 120
 RULE = ("scenario = founders (size biased to 1,2,3,7,48,49,50,98,103,107), 1-24 markers on 1-3 chromosomes, xoprob with exact 0 and 0.5, additive "
         "model with positive/negative/zero effects and non-zero intercept, 1-3 traits; up to 8 generations each = selection rule (random / "
         "truncation by reference / truncation through the real GEBV protocol / worst / single parent) + one of 7 mating protocols with drawn "
-        "counts and selfing depth + replacement policy (replace / merge with parents / subsample) + target size; generator script pass/low/high; "
+        "counts and selfing depth + replacement policy (replace / merge with parents / subsample / cull the same object in place / append progeny to the same object) + target size; generator script pass/low/high; "
         "distinct = (protocol sequence, rules, size classes, script); non-trivial = at least one generation produced progeny")
 COMPONENTS = {"real": ["DenseAdditiveLinearGenomicModel.usl/lsl/gebv", "DensePhasedGenotypeMatrix (afreq, concat_taxa, select_taxa)", "DenseGenotypeMatrix (unphased view)",
                        "seven mating protocols", "GenomicEstimatedBreedingValueSubsetSelection + SortingSubsetOptimizationAlgorithm"],
@@ -65,7 +65,7 @@ def generate(R, tier):
         gens.append({"rule": R.choice(["random", "random", "top", "top_real", "worst", "single"]),
                      "nsel": R.randint(1, 6), "prot": R.choice(sorted(PROT)), "nself": R.choice([0, 0, 1, 2]),
                      "size": R.choice(SIZES) if R.random() < 0.6 else R.randint(1, 12),
-                     "policy": R.choice(["replace", "replace", "merge", "subsample"]), "s": R.randrange(1 << 30)})
+                     "policy": R.choice(["replace", "replace", "merge", "subsample", "inplace-cull", "inplace-merge"]), "s": R.randrange(1 << 30)})
     mode = R.choice(["pass", "pass", "pass", "low", "high"])
     return {"world": {"seed": R.randrange(1 << 30), "ntaxa": R.choice(SIZES) if R.random() < 0.5 else R.randint(1, 10), "nvrnt": nv, "nchr": nchr,
                       "ntrait": R.randint(1, 3), "freq": R.choice([0.5, 0.5, 0.2, 0.9]), "nfixed": R.choice([1, 1, 2, 4])},
@@ -298,6 +298,23 @@ def execute(sc):
                 except Exception as e:
                     V.append(viol("selection-protocol-completes", "GenomicEstimatedBreedingValueSubsetSelection.select", "raises:%s" % type(e).__name__, "generation %d: %s" % (ix, e), step=ix))
                     break
+        if st["policy"] == "inplace-cull":
+            # selection alone is a step of a closed history: the same population object is culled in place to the
+            # selected individuals and asked for its limits again
+            drop = sorted(set(range(n)) - set(int(v) for v in sel))
+            if not drop:
+                continue
+            try:
+                pop.remove_taxa(numpy.array(drop, dtype=int))
+            except Exception as e:
+                V.append(viol("population-update-completes", "DensePhasedGenotypeMatrix.remove_taxa", "raises:%s" % type(e).__name__, "generation %d: %s: %s" % (ix, type(e).__name__, e), step=ix))
+                break
+            faults["population_object_modified_in_place"] = faults.get("population_object_modified_in_place", 0) + 1
+            kinds.append("%s/-/inplace-cull/s" % rule)
+            ngen += 1
+            if observe(pop, ix) is None:
+                break
+            continue
         # ---- crosses: the target size decides the number of crosses
         target = st["size"]
         ncross = max(1, target)
@@ -313,7 +330,12 @@ def execute(sc):
         kinds.append("%s/%s/%s/%s" % (rule, st["prot"], st["policy"], "R" if target in (49, 98, 103, 107) else ("L" if target > 12 else "s")))
         # ---- replacement policy
         try:
-            if st["policy"] == "merge" and n + prog.ntaxa <= 130:
+            if st["policy"] == "inplace-merge" and n + prog.ntaxa <= 130:
+                # progeny join their parents in the same population object
+                pop.append_taxa(numpy.asarray(prog.mat), taxa=prog.taxa, taxa_grp=prog.taxa_grp)
+                newpop = pop
+                faults["population_object_modified_in_place"] = faults.get("population_object_modified_in_place", 0) + 1
+            elif st["policy"] == "merge" and n + prog.ntaxa <= 130:
                 newpop = DensePhasedGenotypeMatrix.concat_taxa([pop, prog])
                 newpop.vrnt_xoprob = pop.vrnt_xoprob if newpop.vrnt_xoprob is None else newpop.vrnt_xoprob
             elif st["policy"] == "subsample" and prog.ntaxa > 1:
